@@ -226,7 +226,7 @@ func (d *Data) PutBlocks(v dvid.VersionID, mutID uint64, start dvid.ChunkPoint3d
 	// Read blocks from the stream until we can output a batch put.
 	const BatchSize = 1000
 	var readBlocks int
-	numBlockBytes := d.BlockSize().Prod()
+	numBlockBytes := d.BlockSize().Prod() * int64(d.Values.BytesPerElement())
 	chunkPt := start
 	buf := make([]byte, numBlockBytes)
 	for {
